@@ -29,6 +29,11 @@ ASSUMPTIONS = [
     "feature equality: <= 2 ulp (time to maturity: 4 ulp of the maturity, (T-1)dt - i dt and (T-1-i) dt round differently)",
     "branch equality: 1e-12 relative (float64) / 1e-5 (float32) of the hedge scale - matmul blocking differs between (N,T,F) and (N,1,F)",
 ]
+ANCHORS = ['pfhedge.nn.modules.hedger:Hedger.compute_hedge',
+           'pfhedge._utils.hook:save_prev_output',
+           'pfhedge.features.features:PrevHedge.get',
+           'pfhedge.features.container:FeatureList.get',
+           'pfhedge.features.features:Barrier.get']
 DECIDING = ["feature.step_equals_column", "branches.agree", "prev_hedge.is_last_output", "prev_hedge.zero_at_step0"]
 REQUIRED_BRANCHES = ["H>1", "second_call_same_shape", "second_call_other_paths", "barrier.down.nonmonotone"]
 
